@@ -221,10 +221,7 @@ Qed.
 Lemma transpose_rearr rs a r : WF a -> transpose rs a = Ok r -> WF r /\ rearr a r.
 Proof.
   intros Hw H. unfold transpose in H. destruct rs as [|r0 t].
-  - destruct (List.length (axes a)) as [|[|[|n]]] eqn:E; try discriminate.
-    + injection H as <-. split; [exact Hw|]. destruct Hw as [Hwa [Hn _]]. apply rearr_refl; assumption.
-    + eapply transpose_pos_rearr; eassumption.
-    + eapply transpose_pos_rearr; eassumption.
+  - eapply transpose_pos_rearr; eassumption.
   - destruct (mapM (axis_info a) (r0 :: t)) as [p|]; simpl in H; [|discriminate]. eapply transpose_pos_rearr; eassumption.
 Qed.
 
